@@ -412,9 +412,16 @@ Definition bullet_fn (tbl : numtable) (numId ilvl : str) : numfn :=
   | None => NFBullet
   end.
 
+(* the renderer with its fallback: an ordinal the format rejects is printed in decimal *)
+Definition render_num (f : numfn) (num : Z) : res str :=
+  match apply_numfn f num with
+  | Err ValueError => decimal num
+  | r => r
+  end.
+
 Lemma get_bullet_eq : forall tbl n l num,
   get_bullet tbl (Some n, Some l) (Some num)
-  = (b <- apply_numfn (bullet_fn tbl n l) num ;;
+  = (b <- render_num (bullet_fn tbl n l) num ;;
      let b' := if str_eqb b bullet_str then b else b ++ [41] in
      lvl <- of_opt ValueError (int_of_str l) ;;
      Ok (repeat_str s_tab (Z.to_nat lvl) ++ b' ++ s_tab)).
@@ -427,7 +434,7 @@ Lemma bullet_layout : forall tbl n l num s,
     /\ (body = bullet_str \/ exists b, body = b ++ [41] /\ b <> bullet_str).
 Proof.
   intros tbl n l num s H. rewrite get_bullet_eq in H.
-  destruct (apply_numfn (bullet_fn tbl n l) num) as [b|e]; cbn [bind] in H; [|discriminate].
+  destruct (render_num (bullet_fn tbl n l) num) as [b|e]; cbn [bind] in H; [|discriminate].
   cbv zeta in H.
   destruct (int_of_str l) as [lvl|]; cbn [of_opt bind] in H; [|discriminate].
   injection H as <-.
@@ -475,7 +482,7 @@ Lemma bullet_unknown_format_is_dashes : forall tbl n l num s,
 Proof.
   intros tbl n l num s H Hu. rewrite get_bullet_eq in H.
   rewrite (bullet_fn_unknown tbl n l Hu) in H.
-  cbn [apply_numfn bullet bind] in H. cbv zeta in H.
+  unfold render_num in H. cbn [apply_numfn bullet bind] in H. cbv zeta in H.
   rewrite str_eqb_refl in H.
   destruct (int_of_str l) as [lvl|]; cbn [of_opt bind] in H; [|discriminate].
   injection H as <-. exists lvl. split; reflexivity.
